@@ -18,7 +18,7 @@ from recipes import JOBS, B2JOBS, NATIVEJOBS, PROPS  # noqa: E402
 # A property whose statement is a composition of per-function facts that carry another property's name: in the jobs
 # that list the composed property, those obligations count for it as well (e.g. C03 = lossless text (C05) + the next
 # state is a function of the stored data (C19) + the drivers carry the checkpoint state (C03.*)).
-COMPOSED_OF = {'C03': ('C05', 'C19'), 'C04': ('C16', 'C10', 'C20'), 'C01': ('C02', 'C07', 'C17'), 'C07': ('C17', 'C01'), 'C20': ('C12',)}
+COMPOSED_OF = {'C03': ('C05', 'C19'), 'C04': ('C16', 'C10', 'C20'), 'C01': ('C02', 'C07', 'C17'), 'C07': ('C17', 'C01'), 'C20': ('C12',), 'C12': ('C13',)}
 
 OUT = os.environ.get('VP_OUT') or os.path.join(ROOT, 'out')
 EVID = os.environ.get('VP_EVID') or os.path.join(ROOT, 'evidence')
@@ -53,14 +53,18 @@ def trace_inputs(trace):
 def run_replay(prop, job, ob, inputs, log):
     """native replay on the REAL templates.  Returns (path, reproduced: True/False/None)"""
     os.makedirs(os.path.join(OUT, 'replay'), exist_ok=True)
-    safe = re.sub(r'[^\w.\-]', '_', '%s_%s_%s' % (prop, job, ob.get('name') or ob['id']))
+    safe = re.sub(r'[^\w.\-]', '_', '%s_%s_%s' % (prop, ob['id'] if ob.get('solver') == 'native' else job, ob.get('name') or ob['id']))
     path = os.path.join(OUT, 'replay', safe + '.json')
     rec = dict(property=prop, job=job, obligation=ob.get('name'), cbmc_property=ob['id'], kind=ob['kind'],
                description=ob['description'], location=ob['loc'], real=ob.get('real'), solver=ob.get('solver'),
                inputs=inputs, reproduced=None, native_output=None,
                solver_output=dict(status='FAILURE', trace_steps=len(ob.get('trace') or [])))
     rep = NAT.find_replay(job)
-    if rep and inputs:
+    if ob.get('solver') == 'native':
+        # a bounded native enumeration ran the REAL templates itself: its output is the demonstration
+        rec['reproduced'] = True
+        rec['native_output'] = ((ob.get('model') or {}).get('native_output') or {}).get('data')
+    elif rep and (inputs or rep.get('no_inputs_needed')):
         ok, outtxt = NAT.run_replay(rep, rec, log)
         rec['reproduced'] = ok
         rec['native_output'] = outtxt[-4000:]
